@@ -416,7 +416,7 @@ def ref_entry(fn) -> dict:
     sites = [(n, k, _canon_with(v, {}, set())) for n, k, v in binding_sites(fn) if n in names]
     return {"locals": names, "sites": sites, "digest": digest(fn), "comps": [names_ for _, names_ in comp_sites(fn)],
             "quants": quantifier_sites(fn), "params_read": params_read(fn), "calls": call_shapes(fn), "call_args": call_args(fn), "stmts": stmt_sequence(fn),
-            "params": [x.arg for x in fn.args.posonlyargs + fn.args.args + fn.args.kwonlyargs]}
+            "params": [x.arg for x in fn.args.posonlyargs + fn.args.args + fn.args.kwonlyargs], "src": _safe_unparse(fn)}
 
 
 def call_args(fn) -> list:
@@ -491,6 +491,13 @@ def _own_scope_walk_all(fn):
             continue
         yield n
         todo.extend(reversed(list(ast.iter_child_nodes(n))))
+
+
+def _safe_unparse(fn) -> str:
+    try:
+        return ast.unparse(fn)
+    except Exception:
+        return ""
 
 
 def quantifier_sites(fn) -> list:
